@@ -67,6 +67,48 @@ static void chk_exp(u64 b, u64 e, long long &ev)
     if (r.fe > MASK || r.fe % PR != ex || r2.fe % PR != ex)
         rep().viol(fmt("C10.wrong.exp.w%u", W), fmt("w=%u op=exp a=%s b=%s", W, hex(b).c_str(), hex(e).c_str()), fmt("got %s expected %s", hex(r.fe).c_str(), hex(ex).c_str()));
 }
+// Call histories: inv/div are documented as pure functions; every sequence of three calls drawn from
+// {inv by value, inv into another element, inv in place, div(1,x), div(x,x)} on operands from {a, a^-1, 2a}
+// must give, call by call, what the oracle gives (a memo / cache keyed on earlier calls would show here).
+static void chk_history(u64 a, long long &ev, long long &hist)
+{
+    if (a % PR == 0) return;
+    u64 ainv = F.inv(a);
+    std::vector<u64> ops = {a, ainv, F.mul(a, 2 % PR)};
+    for (u64 &o : ops) if (o % PR == 0) o = a;
+    const int NF = 5, NO = 3;
+    for (int c0 = 0; c0 < NF * NO; c0++)
+        for (int c1 = 0; c1 < NF * NO; c1++)
+            for (int c2 = 0; c2 < NF * NO; c2++)
+            {
+                int cs3[3] = {c0, c1, c2};
+                hist++;
+                for (int k = 0; k < 3; k++)
+                {
+                    int form = cs3[k] % NF;
+                    u64 x = ops[cs3[k] / NF];
+                    cur_op = "history"; cur_a = a; cur_b = (u64)(c0 * 10000 + c1 * 100 + c2);
+                    E X, R;
+                    X.fe = x;
+                    u64 got, ex;
+                    switch (form)
+                    {
+                    case 0: got = Goldilocks::inv(X).fe; ex = F.inv(x); break;
+                    case 1: Goldilocks::inv(R, X); got = R.fe; ex = F.inv(x); break;
+                    case 2: Goldilocks::inv(X, X); got = X.fe; ex = F.inv(x); break;
+                    case 3: got = Goldilocks::div(Goldilocks::one(), X).fe; ex = F.inv(x); break;
+                    default: Goldilocks::div(X, X, X); got = X.fe; ex = 1 % PR; break;
+                    }
+                    ev++;
+                    if (got > MASK || got % PR != ex)
+                    {
+                        rep().viol(fmt("C10.wrong.history.w%u", W), fmt("w=%u op=history a=%s b=%s", W, hex(a).c_str(), hex((u64)(c0 * 10000 + c1 * 100 + c2)).c_str()),
+                                   fmt("call %d of the sequence (form %d on %s) returned %s expected %s", k, form, hex(x).c_str(), hex(got).c_str(), hex(ex).c_str()));
+                        return;
+                    }
+                }
+            }
+}
 // operand congruent to zero: must not return
 static void chk_zero(const char *op, u64 x, u64 z)
 {
@@ -123,6 +165,7 @@ int main(int argc, char **argv)
         if (op == "inv") chk_inv(cu(m, "a"), ev);
         else if (op == "div") chk_div(cu(m, "a"), cu(m, "b"), ev);
         else if (op == "exp") chk_exp(cu(m, "a"), cu(m, "b"), ev);
+        else if (op == "history") { long long h = 0; chk_history(cu(m, "a"), ev, h); }
         else if (op.rfind("zero-", 0) == 0) { alarm(0); chk_zero(op.c_str() + 5, cu(m, "a"), cu(m, "b")); }
         rep().flush();
         return 0;
@@ -149,6 +192,8 @@ int main(int argc, char **argv)
             }
             for (u64 e = 0; e < N; e++) chk_exp(a, e, ev);
             for (u64 e : big_e) chk_exp(a, e, ev);
+            long long hh = 0;
+            if (W == 2 || a % 37 == 5 || a >= PR - 2) { chk_history(a, ev, hh); rep().stat("call_histories", hh); }
         }
         alarm(0);
         rep().stat("transitions", ev);
@@ -178,6 +223,8 @@ int main(int argc, char **argv)
         }
         for (size_t i = (size_t)sl; i < Aq.size(); i += nslices)
         {
+            long long hh = 0;
+            if (i % 16 == 3) { chk_history(Aq[i], ev, hh); rep().stat("call_histories", hh); }
             for (u64 e : big_e) chk_exp(Aq[i], e, ev);
             for (u64 e = 0; e < 64; e++) chk_exp(Aq[i], e, ev);
         }
